@@ -308,6 +308,8 @@ class Lib:
             elif name not in SAFE:
                 if not (deep_concrete(obj) and deep_concrete(a)):
                     raise Unsupported(f"{type(obj).__name__}.{name} with symbolic content")
+            if name == "update" and isinstance(obj, dict) and a and isinstance(a[0], Obj) and a[0].store is not None:
+                a = [dict(a[0].store)] + list(a[1:])        # an instance of a dict subclass of the repository: its mapping
             if name in ("extend", "update", "union", "difference", "intersection") and a:
                 a = [I2.iterate(x, n) if not isinstance(x, (dict, set, frozenset, list, tuple)) else x for x in a]
             if isinstance(obj, dict) and name in ("get", "pop", "setdefault") and a and isinstance(a[0], (SV, SStr)):
@@ -507,6 +509,24 @@ class Lib:
             return I.obj_binop("**", "__pow__", "__rpow__", a, b, node)
         if isinstance(b, Obj):
             return I.obj_binop("**", "__pow__", "__rpow__", a, b, node)
+        def numeral(v):
+            """python number of a concrete value or of a z3 numeral, else None"""
+            if isinstance(v, bool):
+                return None
+            if isinstance(v, (int, fractions.Fraction)):
+                return v
+            if isinstance(v, SV) and v.nan is None and not z3.is_bool(v.t):
+                t = z3.simplify(v.t)
+                if z3.is_int_value(t):
+                    return t.as_long()
+                if z3.is_rational_value(t):
+                    return t.as_fraction()
+            return None
+        na, nb = numeral(a), numeral(b)
+        if na is not None and isinstance(nb, int) and abs(nb) <= 64 and not (na == 0 and nb < 0):
+            # exact power of a rational constant with an integer exponent (rho ** arange(n) ...)
+            r = fractions.Fraction(na) ** nb
+            return int(r) if (isinstance(na, int) and nb >= 0) else r
         if isinstance(a, (int, float)) and isinstance(b, (int, float)):
             return a ** b
         if isinstance(b, (int, float)) and not isinstance(b, bool) and b in (0, 1):
@@ -1551,8 +1571,13 @@ class Lib:
         return SV(F_SQRT(real_of(x)), nan_of(x))
 
     def m_minmax(self, I, x, y, is_max, n):
-        if isinstance(x, Obj):
-            return I.call(I.getattr(x, "maximum" if is_max else "minimum", n), [y], {}, n)
+        if isinstance(x, Obj) or isinstance(y, Obj):
+            # numpy on Python objects: the object loop of maximum/minimum uses the rich comparison of the objects
+            # (TypeError if they do not define it) - it does NOT call a method named maximum/minimum
+            c = I.compare(">=" if is_max else "<=", x, y, n)
+            t = I.truth_sym(c, n)
+            t = t if isinstance(t, bool) else I.ctx.branch(t)
+            return x if t else y
         tx, ty = num_pair(x, y)
         return SV(z3.If(tx >= ty, tx, ty) if is_max else z3.If(tx <= ty, tx, ty))
 
